@@ -39,7 +39,10 @@ func project(v reflect.Value) any {
 		tm := v.Interface().(time.Time)
 		u := tm.Unix()
 		if u < 0 || u > 0xffffffff {
-			return fmt.Sprint("time:", u)
+			// outside what four bytes can say: still a sequence of numbers (five of them), so that the comparison
+			// with a specified four-byte value is simply unequal
+			lo := le32(uint32(u))
+			return []int{lo[0], lo[1], lo[2], lo[3], int((u >> 32) & 0xff)}
 		}
 		return le32(uint32(u))
 	}
